@@ -149,6 +149,13 @@ func c01Generate(c *mon.Ctx) {
 		}
 	}
 
+	// the receiver went through a decode that FAILED (at each stage of each decoder) before it is multiplied
+	for rep := 0; rep < c.N(60, 2000); rep++ {
+		mv := mon.PlanElemMove("decode-rejected", hr)
+		k := gen.Draw(hr, n)
+		c.Structured(func() any { return &c01Case{K: fmt.Sprintf("%x", k.X), KClass: "elem-history:" + mv.Via, EMove: &mv} })
+	}
+
 	// 4b. steered representations: λ chosen so that a first-level intermediate of the first ladder steps (Z^2, Y^2, YZ, XY
 	// of the input point) has a structured stored value; scalars with bit 255 set so that the point enters the formulas at once
 	targets := gen.StoredTargets(oracle.P)
@@ -323,7 +330,7 @@ func c01Run(c *mon.Ctx, csAny any) {
 		c.Eval(1)
 		c.Count("k:nil")
 
-		pan, pv := mon.Call(func() { e.Multiply(nil) })
+		pan, pv := mon.Call(func() { e.Multiply(nil).Multiply(mon.NilScal) })
 		if pan {
 			c.Fail(fmt.Sprintf("Multiply(nil) panicked: %v", pv), "multiply-nil-panic", nil)
 			return
